@@ -22,7 +22,7 @@ def scan_fx():
     if not m:
         return None, "cannot find getOrOpenStream in session_manager.go"
     body = m.group(0)
-    loop = body.split("OpenStream()")[0]
+    loop = body.split("Session().OpenStream()")[0]
     if "p.pop()" not in loop:
         return None, "getOrOpenStream no longer has the pop loop the model mirrors"
     return (".Close()" in loop or ".close()" in loop), None
